@@ -22,7 +22,7 @@ func init() {
 				Run: ruleDequeResize},
 			{ID: "C04.step-direction", Floor: 4, Clause: "the moving end steps the right way: front-1 in PushFront, front+1 in PopFront, back+1 in PushBack, back-1 in PopBack (before reduction)",
 				Run: ruleDequeStepDirection},
-			{ID: "C04.canonical-empty", Floor: 3, Clause: "the deque has ONE allocated-but-empty encoding, front == 0 and back == -1 (PushBack/PushFront/Len rely on it): on every path of every function that stores the constant -1 into back, the constant 0 is stored into front too",
+			{ID: "C04.canonical-empty", Floor: 1, Clause: "the deque has ONE allocated-but-empty encoding, front == 0 and back == -1 (PushBack/PushFront/Len rely on it): on every path of every function that stores the constant -1 into back, the constant 0 is stored into front too",
 				Run: ruleDequeCanonicalEmpty},
 			{ID: "C04.guard-tests-argument", Floor: 3, Clause: "the panic guards of Shrink, Item and Set compare the argument itself (n < 0; i < 0, i >= Len()), not a value computed from it: `Len()+n < 0` lets Shrink(-1) through on a non-empty deque",
 				Run: ruleDequeGuardTestsArgument},
@@ -43,8 +43,10 @@ func ruleDequePopZero(c *Ctx, r *R) {
 			continue
 		}
 		end := spec[1]
+		unbind := bindEndSlotParams(fn, end)
 		// states: 0 = nothing read, 1 = item read from a[end], slot not cleared, 2 = cleared, 3 = end moved before clearing (bad)
-		pf := &PF{N: 4}
+		pkgD := fn.Pkg
+		pf := &PF{N: 4, InScope: func(f *ssa.Function) bool { return rootFn(origin(f)).Pkg == pkgD && f.Blocks != nil && origin(f) != fn }}
 		pf.Instr = func(f *ssa.Function, in ssa.Instruction, q int) (StateSet, bool) {
 			switch x := in.(type) {
 			case *ssa.UnOp:
@@ -78,6 +80,7 @@ func ruleDequePopZero(c *Ctx, r *R) {
 		if bad != nil {
 			pos = retPos(bad)
 		}
+		unbind()
 		r.ok(good && len(exits) > 0, "deque.Deque."+spec[0]+"|zeroed-on-every-return", pos, "a path returns the popped item without having overwritten its slot with the zero value first: the deque keeps a reference to an element it no longer holds")
 	}
 }
@@ -196,7 +199,41 @@ func isEndSlot(ia *ssa.IndexAddr, end string) bool {
 	if !ok || fld != "a" || !isNamedType(base.Type(), "container/deque", "Deque") {
 		return false
 	}
+	if p, ok := resolveVal(ia.Index).(*ssa.Parameter); ok && endSlotParams[p] == end {
+		return true // the slot index handed to a shared helper (d.take(d.front))
+	}
 	return symOf(ia.Index, provEnv{}).fieldSuffix(end)
+}
+
+// endSlotParams: parameters of in-package helpers that, in the analysis under way, are bound to the deque's front / back index.
+var endSlotParams = map[*ssa.Parameter]string{}
+
+// bindEndSlotParams: for every static call in fn of an in-package helper with an argument that is d.<end>, bind the helper's
+// parameter to that end (cleared by the returned function).
+func bindEndSlotParams(fn *ssa.Function, end string) func() {
+	var bound []*ssa.Parameter
+	instrs(fn, func(_ *ssa.BasicBlock, _ int, in ssa.Instruction) {
+		call, ok := in.(*ssa.Call)
+		if !ok {
+			return
+		}
+		cal := staticCallee(&call.Call)
+		if cal == nil || cal.Blocks == nil || rootFn(origin(cal)).Pkg != fn.Pkg {
+			return
+		}
+		o := origin(cal)
+		for i, a := range call.Call.Args {
+			if i < len(o.Params) && isIntType(a.Type()) && symOf(a, provEnv{}).fieldSuffix(end) {
+				endSlotParams[o.Params[i]] = end
+				bound = append(bound, o.Params[i])
+			}
+		}
+	})
+	return func() {
+		for _, p := range bound {
+			delete(endSlotParams, p)
+		}
+	}
 }
 
 func ruleDequeIndexDiscipline(c *Ctx, r *R) {
@@ -238,6 +275,28 @@ func ruleDequeIndexDiscipline(c *Ctx, r *R) {
 				key := name + "|index:" + e.String() + "#" + itoa(k)
 				_, mod := e.modLen("a")
 				okIdx := e.fieldSuffix("front") || e.fieldSuffix("back") || isIterPosition(x.Index) || mod
+				if p, isP := resolveVal(x.Index).(*ssa.Parameter); isP && !okIdx && fn.Parent() == nil && !token.IsExported(fn.Name()) {
+					// the index is a parameter of an unexported helper: every call site hands in front, back or a reduced index
+					pi := -1
+					for k2, pp := range fn.Params {
+						if pp == p {
+							pi = k2
+						}
+					}
+					sites := callSitesOf(c, fn)
+					okIdx = pi >= 0 && len(sites) > 0
+					for _, site := range sites {
+						if pi >= len(site.Call.Args) {
+							okIdx = false
+							continue
+						}
+						ae := symOf(site.Call.Args[pi], provEnv{})
+						_, am := ae.modLen("a")
+						if !(ae.fieldSuffix("front") || ae.fieldSuffix("back") || am) {
+							okIdx = false
+						}
+					}
+				}
 				r.ok(okIdx, key, x.Pos(), "d.a is indexed by "+e.String()+", which is neither front, back, the iterator's position nor reduced modulo len(d.a)")
 			}
 		})
@@ -602,6 +661,24 @@ func ruleDequeIterTermination(c *Ctx, r *R) {
 					gate[f] = true
 				}
 			}
+			// the test lives in a boolean helper of the iterator (iter.exhausted()): the iterator fields that helper reads
+			if bv, _ := g.boolVal(); bv != nil {
+				if hc, ok := bv.(*ssa.Call); ok {
+					if cal := staticCallee(&hc.Call); cal != nil && cal.Blocks != nil && len(hc.Call.Args) > 0 && hc.Call.Args[0] == ssa.Value(fn.Params[0]) && rootFn(origin(cal)).Pkg == fn.Pkg {
+						o := origin(cal)
+						instrs(o, func(_ *ssa.BasicBlock, _ int, in2 ssa.Instruction) {
+							ld, ok := in2.(*ssa.UnOp)
+							if !ok || ld.Op != token.MUL {
+								return
+							}
+							pv := valueProv(ld, provEnv{})
+							if pp, ok := pv.root.(*ssa.Parameter); ok && len(o.Params) > 0 && pp == o.Params[0] && len(pv.fields) == 1 && !isIntCursorField(fn, pv.fields[0], cursorPaths) {
+								gate[pv.fields[0]] = true
+							}
+						})
+					}
+				}
+			}
 			if cf, ok := g.asCmp(); ok {
 				for _, v := range []ssa.Value{cf.x, cf.y} {
 					if f := iterFieldOf(v); f != "" && !cursorPaths[path(v)] {
@@ -874,6 +951,16 @@ func dependsOnValue(v ssa.Value, target ssa.Value, d int) bool {
 		}
 	case *ssa.Convert:
 		return dependsOnValue(x.X, target, d+1)
+	}
+	return false
+}
+
+// isIntCursorField: field f of the iterator is its cursor (one of the index paths used to read d.a ends in .f).
+func isIntCursorField(fn *ssa.Function, f string, cursorPaths map[string]bool) bool {
+	for p := range cursorPaths {
+		if strings.HasSuffix(p, "."+f) {
+			return true
+		}
 	}
 	return false
 }
